@@ -274,8 +274,17 @@ def correspond(ctx):
         alltr += [(sv, t, rd, thr, seed) for (sv, t, rd, thr) in tr]
         for k, v in st.items():
             total[k] = total.get(k, 0) + v
-    res = conc.coq_conform("c15_conf", ["Word", "Conc", "Gen_dqstate", "Gen_srcdata", "SrcData"], "conform",
-                           [(sv, t) for (sv, t, _, _, _) in alltr], chunk=250)
+    res, err = [], None
+    for attempt in range(2):
+        try:
+            res = conc.coq_conform("c15_conf", ["Word", "Conc", "Gen_dqstate", "Gen_srcdata", "SrcData"], "conform",
+                                   [(sv, t) for (sv, t, _, _, _) in alltr], chunk=250)
+            err = None
+            break
+        except RuntimeError as ex:   # keep the API-level failures of these runs even if the Coq evaluation cannot be done
+            err = str(ex)
+    if err is not None:
+        mism.append({"what": "trace conformance could not be evaluated in Coq", "detail": err[-1500:]})
     for (i, idle), (sv, t, rd, thr, seed) in zip(res, alltr):
         if i != -1 or idle != 1:
             lo = max(0, i - 8) if i >= 0 else max(0, len(t) - 12)
